@@ -9,6 +9,9 @@ RULE = ("E1: S-batch (M in {2,3,(4)}, partitions {1,2,(3)}, min {1,2}, "
         "checked after every event (stable, disjoint, not on ingest, no "
         "foreign task, allocations only from own reservation, count <= "
         "partitions, size within bounds, returned to the free pool); "
+        "plus the same runs started after an ABANDONED earlier simulation "
+        "of the same process (stopped at k in {3,5,8}/{2..11} with "
+        "reservations live); "
         "non-trivial = two live reservations or ingest during a reservation")
 
 
@@ -22,6 +25,9 @@ def cases(tier, seed):
     out = []
     for sc, c in common.add_algs(bat, lambda c: common.batch_algs(c, lvl)):
         out.append((sc, c))
+    for sc, c in common.add_algs(common.batch_seq_scope(lvl),
+                                 common.batch_seq_algs):
+        out.append((sc, c))
     for sc, c in common.add_algs(common.wide_scope(lvl), lambda c: [
             a for a in common.wide_algs(c, lvl) if a["kind"] == "batch"]):
         out.append((sc, c))
@@ -34,6 +40,16 @@ def cases(tier, seed):
                          "budget": 2 if tier == "thorough" else 1}
             if world.feasible(cc):
                 out.append((sc + "/adversary", cc))
+    # a fresh simulation after an ABANDONED one in the same process (the
+    # earlier run was stopped at time k with reservations still live): the
+    # new cluster must start with no reservation
+    plain = [(sc, c) for sc, c in out if c["alg"]["kind"] == "batch"
+             and sc == "S-batch"]
+    for sc, c in common.thin(plain, 6 if tier != "thorough" else 2):
+        for k in ((3, 5, 8) if tier != "thorough" else (2, 3, 4, 5, 6, 8, 11)):
+            first = dict(c, runtime=k)
+            out.append((sc + "/after-abandoned-run",
+                        dict(c, before=[first])))
     if tier == "thorough":
         out = [(sc, dict(c, budget_override=dict(
             common.thorough_override(c, i), **c.get("budget_override", {}))))
